@@ -125,7 +125,7 @@ func (o *orbitDBAccessController) CanAppend(entry logac.LogEntry, p identityprov
 
 	access := append(writeAccess, adminAccess...)
 
-	if err := accesscontroller.VerifyEntryIdentity(entry); err != nil {
+	if err := accesscontroller.VerifyEntryIdentity(entry, p); err != nil {
 		return fmt.Errorf("unauthorized: %w", err)
 	}
 
